@@ -127,6 +127,10 @@ func validateValue(option *Option, value interface{}) (*valueCache, *ValidationE
 		if option.OptType != OptTypeStringArray {
 			return nil, invalid(option, "expected type %s, got type %T", getTypeName(option.OptType), v)
 		}
+		if v == nil {
+			// A nil slice would be saved as JSON null, which does not load again.
+			v = []string{}
+		}
 		if option.compiledRegex != nil {
 			for pos, entry := range v {
 				if !option.compiledRegex.MatchString(entry) {
